@@ -93,7 +93,8 @@ def run(ck):
                "(publisher, QoS, delivery QoS) sequence numbers increase (order), retransmitted ids keep their original order and include everything "
                "unacknowledged (resend_order), no new PUBLISH before the last retransmission (resend_first), no QoS 2 message offered twice as new; "
                "gated resume with a PUBREL and PUBLISHes in flight, a free window slot and a backlog while Restore is held back; packet ids wrapping "
-               "65535->1 between unacknowledged deliveries; a publisher cut and resuming with unacknowledged QoS 1/2 publishes (publisher_resume); a "
+               "65535->1 between unacknowledged deliveries; a takeover while the old connection's dequeuer holds a dequeued, not yet stored message with two more queued "
+               "(arrival order at the newcomer, resend order after a further cut); a publisher cut and resuming with unacknowledged QoS 1/2 publishes (publisher_resume); a "
                "backend that is slow with a publisher's first message (log_publish_serial, order); a backlogged subscriber; back-pressure bursts "
                "(in_order, progress); real client.Service publishers and client.Client subscribers around the broker (order_e2e); on every backend "
                "log: log_restore_first; plus clauses c15_in_order, c15_release_intact, c15_resend_order, c15_dequeue_order, c15_resend_first on "
